@@ -131,6 +131,18 @@ class Case:
         self.key = key if key is not None else json.dumps(inp, sort_keys=True, default=str)
 
 
+def guarded(make_case, inp, kind):
+    """run a case constructor; if the implementation (or the observation of its output) raises on an
+    input that is expected to work, turn that into a violating case carrying the input, instead of
+    aborting the whole run"""
+    import traceback
+    try:
+        return make_case()
+    except Exception as exc:  # the implementation raised on a valid input
+        return Case(inp, {"unexpected_exception": repr(exc), "trace": traceback.format_exc()[-1500:]},
+                    "Vboth", "# the call raised: %r" % (exc,), kind + "-raised", nontrivial=True)
+
+
 # ---------------------------------------------------------------------------
 # Coq build
 # ---------------------------------------------------------------------------
